@@ -6,7 +6,7 @@ class C07(SyncProp):
     id = "C07"
     kinds = ("barrier",)
     gen_args = {"max_actors": 6, "max_ops": 8}
-    sizes = {"quick": 1500, "thorough": 60000}
+    sizes = {"quick": 1500, "thorough": 20000}
     ready = True
     nontrivial_labels = ("barrier->=2-groups", "deadlock")
     technique = ("property-based testing (Hypothesis): generated barrier programs run on the real kernel, their kernel-ordered log "
